@@ -53,7 +53,8 @@ class C01(Prop):
                    '(compared by attribute name, rtol 1e-7 + 1e-9*total), sum to total, be non-negative and finite, leave the potentials untouched, return the brute-force '
                    'log normaliser with logZ=True, be invariant under adding a constant to one potential, under the elimination order (same joint lifted onto each model), '
                    'and under replacing the public attribute message_order by other linear extensions of the message-dependency order '
-                   '(all of them for junction trees with <= 4 edges in thorough, a seeded sample in quick).')
+                   '(thorough: ALL linear extensions for every junction tree with <= 4 edges, i.e. <= 720 schedules, on the first 3-4 order modes; quick: all of them for the 48 tree cases '
+                   'on 5-6 attributes under order None, a seeded sample of 5 + the first lexicographic extension for the other cases on two order modes).')
     rule = ('case = (clique set, domain order, sizes, total, potential regime, list of elimination orders, schedule budget, seed); structures: all sets of <= 4 distinct cliques '
             '(size <= 3) on 1..4 attributes, plus attribute trees on 5-6 attributes (junction trees with 3-4 edges) and cycles / wheels / ladders / seeded hypergraphs on 5-6 attributes; '
             'non-trivial = at least two attributes of size >= 2 and at least one clique with >= 2 attributes; distinct by the whole case dict')
@@ -165,7 +166,6 @@ class C01(Prop):
             yield c
         for c in big[bi:]:
             yield c
-
 
     def nontrivial(self, case):
         size = dict(zip(case['attrs'], case['sizes']))
